@@ -15,10 +15,10 @@ NAV = True
 def inputs(ctx, quick, rng):
     texts = [t for t, _, _ in treefam.tag_inputs(ctx, quick, rng)]
     if quick:
-        texts = texts[::3]
+        texts = texts[::5]
     texts += treefam.script_inputs(ctx, quick, rng, PID)
     texts += list(sigma_strings(SIGMA_QUICK, 2 if quick else 3))
-    texts += [random_unicode(rng, 50) for _ in range(800 if quick else 6000)]
+    texts += [random_unicode(rng, 50) for _ in range(300 if quick else 6000)]
     texts += notable_inputs() + [t for t in long_token_inputs() if len(t) < 6000 and ' ' * 50 not in t]
     fx = repo_texts()
     texts += [t[:300] for t in fx] + [t[i:i + 150] for t in fx for i in range(0, min(len(t), 1500), 150)]
